@@ -112,8 +112,10 @@ class PatternRewriter:
         self._rec("erase_block_argument", arg)
 
     def insert_block_argument(self, block, index, typ):
-        self._rec("insert_block_argument", block, index, typ)
-        return None
+        """performed (the caller goes on using the new argument) and recorded"""
+        arg = block.insert_arg(typ, index)
+        self._rec("insert_block_argument", block, index, typ, arg)
+        return arg
 
 
 def op_type_rewrite_pattern(f):
